@@ -123,6 +123,12 @@ class Scheduler:
                 return '@next' if '@next' in l else ('pull#' if l.startswith('pull#') else 'other')
             preferred = [k for k, (_, l) in enumerate(en) if (cls(l) == ph[0]) != ph[1]]
             i = self.rng.choice(preferred) if preferred else self.rng.randrange(len(en))
+        elif self.policy == 'source-first':
+            # sources run as far ahead as they can, the consumer pulls next, resolvers of what was produced settle last
+            # (oldest first): producers meet full buffers while the items they hold are still pending
+            nxt = [k for k, (_, l) in enumerate(en) if '@next' in l]
+            pulls = [k for k, (_, l) in enumerate(en) if l.startswith('pull#')]
+            i = nxt[0] if nxt else (pulls[0] if pulls else 0)
         elif self.policy in ('slow-source', 'slow-consumer'):
             # biased random: a source iterator (resp. the consumer) only moves when nothing else can
             key = '@next' if self.policy == 'slow-source' else 'pull#'
